@@ -494,7 +494,7 @@ static void do_access(int lineno, const char *op, toks_t *t)
     int kind, f, slot = -1, typed, mk, nd = 0, alloc_n, i, j, rc, reqid = UNSET;
     int haspat = 0, cbad = 0, overs = 0, have_type = 0;
     char lay;
-    long long seed = 0, bufcount = 0, vcnt = 0, vblk = 0, vstr = 0;
+    long long seed = 0, bufcount = 0, vcnt = 0, vblk = 0, vstr = 0; int resized = 0;
     long long nelems, libne, libraw, imapext, npat, lim, es, need;
     long long ext_bytes, lb_bytes = 0;
     const char *s;
@@ -548,10 +548,13 @@ static void do_access(int lineno, const char *op, toks_t *t)
 
     /* buf layout */
     s = tk_next(t);
-    if (strlen(s) != 1 || !strchr("cvn", s[0])) { lg_refused("buf"); return; }
+    if (strlen(s) != 1 || !strchr("cvnr", s[0])) { lg_refused("buf"); return; }
     lay = s[0];
     if (lay == 'c' && !typed) bufcount = tk_ll(t);
-    if (lay == 'v') { vcnt = tk_ll(t); vblk = tk_ll(t); vstr = tk_ll(t); }
+    if (lay == 'v' || lay == 'r') { vcnt = tk_ll(t); vblk = tk_ll(t); vstr = tk_ll(t); }
+    /* 'r': the same memory layout as 'v', described as bufcount = count instances of
+     * resized(contiguous(blocklen, elem), lb 0, extent stride elements) */
+    if (lay == 'r') { resized = 1; lay = 'v'; }
     if (typed) lay = 'c';       /* typed API has no buftype: layout ignored */
     if (t->bad) { lg_refused("parse"); return; }
 
@@ -657,8 +660,16 @@ static void do_access(int lineno, const char *op, toks_t *t)
     } else {    /* vector */
         MPI_Aint tlb = 0, text = 0;
         if (vcnt > INT_MAX || vcnt < INT_MIN || vblk > INT_MAX || vblk < INT_MIN ||
-            vstr > INT_MAX || vstr < INT_MIN ||
-            MPI_Type_vector((int)vcnt, (int)vblk, (int)vstr, mpitype(mk), &bt) != MPI_SUCCESS) {
+            vstr > INT_MAX || vstr < INT_MIN) { lg_refused("vector"); return; }
+        if (resized) {
+            MPI_Datatype ct;
+            if (vcnt < 1 || vblk < 1 || vstr < vblk ||
+                MPI_Type_contiguous((int)vblk, mpitype(mk), &ct) != MPI_SUCCESS) { lg_refused("vector"); return; }
+            if (MPI_Type_create_resized(ct, 0, (MPI_Aint)(vstr * es), &bt) != MPI_SUCCESS) {
+                MPI_Type_free(&ct); lg_refused("vector"); return;
+            }
+            MPI_Type_free(&ct);
+        } else if (MPI_Type_vector((int)vcnt, (int)vblk, (int)vstr, mpitype(mk), &bt) != MPI_SUCCESS) {
             lg_refused("vector"); return;
         }
         have_type = 1;
@@ -668,6 +679,7 @@ static void do_access(int lineno, const char *op, toks_t *t)
         }
         ext_bytes = (long long)text; lb_bytes = (long long)tlb;
         npat = sat_mul(vcnt, vblk); bc = 1;
+        if (resized) { ext_bytes = ((vcnt - 1) * vstr + vblk) * es; lb_bytes = 0; bc = (MPI_Offset)vcnt; }
         if (ext_bytes > need) need = ext_bytes;
         if (ext_bytes > CAP_BYTES || ext_bytes < 0 || npat > CAP_ELEMS) {
             MPI_Type_free(&bt); lg_refused("toobig"); return;
